@@ -308,10 +308,12 @@ def weave_function(src_fn, spec, path, W, opts, meta):
     # ---- body level
     if body_open is not None:
         loops = find_loops(toks, body_open + 1, body_close)
-        for c in spec.of("fn-start"):
-            add(body_open + 1, "\n" + c.body + "\n")
-        for c in spec.of("fn-end"):
-            add(body_close, "\n" + c.body + "\n")
+        for hn, c in enumerate(spec.of("fn-start"), 1):
+            add(body_open + 1, "\n" + c.body + "\n",
+                ob("hint", c, {"name": "fn-start#%d[%s]" % (hn, ",".join(c.tags))}) if c.tags else None)
+        for hn, c in enumerate(spec.of("fn-end"), 1):
+            add(body_close, "\n" + c.body + "\n",
+                ob("hint", c, {"name": "fn-end#%d[%s]" % (hn, ",".join(c.tags))}) if c.tags else None)
         # `--- inherit N M`: loop N repeats the invariants of loop M (nested loops must restate them)
         for c in spec.of("inherit"):
             parts_ = c.name.split()
